@@ -81,7 +81,7 @@ def catalogue():
     C = {}
     k = 2.5
     # arithmetic
-    C["add"] = (lambda E: [E.x + E.y], True)
+    C["add"] = (lambda E: [E.x + E.y, E.x + E.z, E.z + E.x, E.tx + E.ty], True)
     C["sub"] = (lambda E: [E.x - E.z], True)
     C["mul"] = (lambda E: [E.x * E.y], True)
     C["div"] = (lambda E: [E.x / E.z], True)
@@ -239,7 +239,15 @@ def _setitem_rhs(E):
     t[{"a": "a1"}] = E.z
     t2 = FlodymArray(dims=E.ds("ab"))
     t2[...] = E.x.values
-    return [t, t2]
+    # list keys: all items of a dimension in another order, some of them; the right-hand side in the target's order and not
+    t3 = FlodymArray(dims=E.ds("ab"))
+    t3[{"a": ["a2", "a1"]}] = E.x
+    t3[{"b": ["b2", "b1"]}] = E.z
+    t3[{"a": ["a2"], "b": ["b2", "b1"]}] = E.z
+    t4 = FlodymArray(dims=E.ds("bc"))
+    t4[{"c": ["c3", "c1"]}] = E.y
+    t4[{"c": ["c3", "c1", "c2"], "b": ["b2", "b1"]}] = E.y
+    return [t, t2, t3, t4]
 
 
 def system_ops():
